@@ -153,8 +153,138 @@ def inline_test_locals(fnode):
     return count
 
 
+# ---------------------------------------------------------------------------------------------------------------- N3
+def counted_while_to_for(fnode):
+    """N3 - *a counted `while`*.
+
+        i = A                          for i in range(A, B, c):
+        while i < B and C:      ==         if not (C): break
+            BODY                           BODY
+            i += c
+
+    when `i` is a plain local that is assigned immediately before the loop, incremented by a positive integer constant as
+    the LAST statement of the body and nowhere else, BODY has no `continue` of this loop (it would skip the increment), no
+    name that B reads is assigned in the loop, the loop has no `else`, and `i` is not read after the loop before it is
+    assigned again.  `i <= B` is range(A, B + 1, c); a decrement with `i > B` is range(A, B, -c), with `i >= B`
+    range(A, B - 1, -c).  Further conjuncts of the test become a leading `if not (...): break`.  The initialisation stays
+    where it is (harmless) and line numbers are kept.  Returns the number of loops rewritten."""
+    count = 0
+
+    def names_loaded(nodes, name):
+        return any(isinstance(x, ast.Name) and x.id == name and isinstance(x.ctx, ast.Load) for n_ in nodes for x in ast.walk(n_))
+
+    def own_level(body):
+        """statements of the loop body at this loop's level (not descending into nested loops / functions)"""
+        out, stack = [], list(body)
+        while stack:
+            n_ = stack.pop()
+            out.append(n_)
+            for ch in ast.iter_child_nodes(n_):
+                if isinstance(ch, (ast.For, ast.While, ast.AsyncFor, ast.FunctionDef, ast.AsyncFunctionDef, ast.Lambda, ast.ClassDef)):
+                    continue
+                stack.append(ch)
+        return out
+
+    def rewrite(stmts):
+        nonlocal count
+        for k, s_ in enumerate(stmts):
+            for fld in ('body', 'orelse', 'finalbody'):
+                sub = getattr(s_, fld, None)
+                if isinstance(sub, list) and sub and isinstance(sub[0], ast.stmt):
+                    rewrite(sub)
+            for h in getattr(s_, 'handlers', []) or []:
+                rewrite(h.body)
+            if not (isinstance(s_, ast.While) and not s_.orelse and k > 0 and s_.body):
+                continue
+            init = stmts[k - 1]
+            if not (isinstance(init, ast.Assign) and len(init.targets) == 1 and isinstance(init.targets[0], ast.Name)):
+                continue
+            i = init.targets[0].id
+            test = s_.test
+            conj = list(test.values) if isinstance(test, ast.BoolOp) and isinstance(test.op, ast.And) else [test]
+            c0 = conj[0]
+            if not (isinstance(c0, ast.Compare) and len(c0.ops) == 1 and isinstance(c0.left, ast.Name) and c0.left.id == i and
+                    isinstance(c0.ops[0], (ast.Lt, ast.LtE, ast.Gt, ast.GtE))):
+                continue
+            B = c0.comparators[0]
+            last = s_.body[-1]
+            step = None
+            if isinstance(last, ast.AugAssign) and isinstance(last.target, ast.Name) and last.target.id == i and \
+                    isinstance(last.op, (ast.Add, ast.Sub)) and isinstance(last.value, ast.Constant) and isinstance(last.value.value, int) and \
+                    not isinstance(last.value.value, bool) and last.value.value > 0:
+                step = last.value.value if isinstance(last.op, ast.Add) else -last.value.value
+            elif isinstance(last, ast.Assign) and len(last.targets) == 1 and isinstance(last.targets[0], ast.Name) and last.targets[0].id == i and \
+                    isinstance(last.value, ast.BinOp) and isinstance(last.value.op, (ast.Add, ast.Sub)) and isinstance(last.value.left, ast.Name) and \
+                    last.value.left.id == i and isinstance(last.value.right, ast.Constant) and isinstance(last.value.right.value, int) and \
+                    not isinstance(last.value.right.value, bool) and last.value.right.value > 0:
+                step = last.value.right.value if isinstance(last.value.op, ast.Add) else -last.value.right.value
+            if step is None:
+                continue
+            up = isinstance(c0.ops[0], (ast.Lt, ast.LtE))
+            if up != (step > 0):
+                continue
+            rest = s_.body[:-1]
+            inner = own_level(rest)
+            if any(isinstance(x, ast.Continue) for x in inner):
+                continue
+            allin = [x for n_ in rest for x in ast.walk(n_)]
+            if any(isinstance(x, ast.Name) and x.id == i and isinstance(x.ctx, (ast.Store, ast.Del)) for x in allin):
+                continue
+            breads = {x.id for x in ast.walk(B) if isinstance(x, ast.Name)}
+            if any(isinstance(x, ast.Name) and x.id in breads and isinstance(x.ctx, (ast.Store, ast.Del)) for x in allin) or \
+                    any(isinstance(x, ast.Call) for x in ast.walk(B) if not (isinstance(x, ast.Call) and isinstance(x.func, ast.Name) and x.func.id == 'len')):
+                continue
+            # `i` after the loop: not read before it is assigned again (in this statement list)
+            used_after = False
+            for t_ in stmts[k + 1:]:
+                if isinstance(t_, ast.Assign) and len(t_.targets) == 1 and isinstance(t_.targets[0], ast.Name) and t_.targets[0].id == i and \
+                        not names_loaded([t_.value], i):
+                    break
+                occ = sorted((x for x in ast.walk(t_) if isinstance(x, ast.Name) and x.id == i), key=lambda x: (x.lineno, x.col_offset))
+                if occ and isinstance(occ[0].ctx, ast.Store) and not isinstance(t_, ast.AugAssign):
+                    # the first thing a later statement does with the name is to assign it (a `for i in ...` further down)
+                    if any(isinstance(x, ast.For) and x.target is occ[0] for x in ast.walk(t_)):
+                        break
+                if occ and any(isinstance(x.ctx, ast.Load) for x in occ):
+                    used_after = True
+                    break
+            if used_after:
+                continue
+            one = ast.Constant(value=1)
+            if isinstance(c0.ops[0], ast.LtE):
+                stop = ast.BinOp(left=copy.deepcopy(B), op=ast.Add(), right=one)
+            elif isinstance(c0.ops[0], ast.GtE):
+                stop = ast.BinOp(left=copy.deepcopy(B), op=ast.Sub(), right=one)
+            else:
+                stop = copy.deepcopy(B)
+            if isinstance(stop, ast.BinOp) and isinstance(stop.left, ast.Constant) and isinstance(stop.left.value, int):
+                stop = ast.Constant(value=stop.left.value + (1 if isinstance(stop.op, ast.Add) else -1))
+            args = [copy.deepcopy(init.value), stop] + ([ast.Constant(value=step)] if step != 1 else [])
+            if step == 1 and isinstance(init.value, ast.Constant) and init.value.value == 0:
+                args = [stop]
+            if step < 0:
+                args[-1] = ast.UnaryOp(op=ast.USub(), operand=ast.Constant(value=-step))
+            body = list(rest)
+            if len(conj) > 1:
+                cond = conj[1] if len(conj) == 2 else ast.BoolOp(op=ast.And(), values=conj[1:])
+                neg = cond.operand if isinstance(cond, ast.UnaryOp) and isinstance(cond.op, ast.Not) else ast.UnaryOp(op=ast.Not(), operand=cond)
+                body.insert(0, ast.copy_location(ast.If(test=neg, body=[ast.copy_location(ast.Break(), s_)], orelse=[]), s_))
+            if not body:
+                body = [ast.copy_location(ast.Pass(), s_)]
+            new = ast.For(target=ast.Name(id=i, ctx=ast.Store()), iter=ast.Call(func=ast.Name(id='range', ctx=ast.Load()), args=args, keywords=[]),
+                          body=body, orelse=[], type_comment=None)
+            stmts[k] = ast.copy_location(new, s_)
+            ast.fix_missing_locations(stmts[k])
+            count += 1
+    rewrite(fnode.body)
+    return count
+
+
 def normalise_module(tree):
     n = 0
+    for node in ast.walk(tree):
+        if isinstance(node, (ast.FunctionDef, ast.AsyncFunctionDef)):
+            n += counted_while_to_for(node)
     for node in ast.walk(tree):
         if isinstance(node, (ast.FunctionDef, ast.AsyncFunctionDef)):
             n += inline_test_locals(node)
